@@ -5,7 +5,7 @@ No stubs: for every (grid, degree, contour) of the lattice the *real* integrand
 (exactly what quad_ker_ad returns for an evolution kernel equal to 1) is integrated by scipy.integrate.quad
 with the arguments Operator.run_op_integration uses (0.5 .. 1-0.05, epsabs=1e-12, epsrel=1e-5, limit=100)
 for every basis function at every grid node (all degrees) and at 3 (thorough 5) interior points of every cell
-(degree >= 2), for the singlet (mode0=100) and the non-singlet (mode0=10201) contour.
+plus two points of the last cell close to x = 1 (fractions 0.97, 0.995 in ln x; degree >= 2), for the singlet (mode0=100) and the non-singlet (mode0=10201) contour.
 
 Oracles
   (a) sharp: the result equals the same integral of an independently derived transform (integration by parts
@@ -68,9 +68,13 @@ def _points(g, lg, degree, fracs):
         for c, (a, b) in enumerate(zip(lg, lg[1:])):
             for f in fracs:
                 pts.append((float(a + f * (b - a)), "interior", c))
+        # close to x = 1 inside the (possibly wide) last cell: exp(N (ln x_min,cell - ln x)) is largest there
+        for f in LAST_CELL_FRACS:
+            pts.append((float(lg[-2] + f * (lg[-1] - lg[-2])), "interior", len(g) - 2))
     return pts
 
 
+LAST_CELL_FRACS = [0.97, 0.995]
 SOLVER_SHIFT = {"non-singlet": 0.0, "singlet": 1e-13}
 
 
@@ -201,6 +205,12 @@ def _evaluate_solver(case):
 
 
 def evaluate(case):
+    # exp(N (ln x_min,cell - ln x)) overflows harmlessly for points inside wide cells (the term is dropped by the library)
+    with np.errstate(over="ignore"):
+        return _evaluate(case)
+
+
+def _evaluate(case):
     if case["kind"] == "solver":
         return _evaluate_solver(case)
     from scipy import integrate
@@ -340,7 +350,7 @@ def run(ctx):
                 continue
             # the inversion points of one (grid, degree, contour) are dealt round-robin into blocks of
             # about 100 integrals so that no single case dominates the wall time
-            npts = n + (len(fracs) * (n - 1) if d >= 2 else 0)
+            npts = n + ((len(fracs) * (n - 1) + len(LAST_CELL_FRACS)) if d >= 2 else 0)
             nblocks = max(1, round(npts * n * (d + 1) / 300))
             for cname in CONTOURS:
                 for b in range(nblocks):
